@@ -82,6 +82,24 @@ mapping:
     Z:
       K: [uniform_shape(3), uniform_shape(2)]
 """, extents={"K": 8, "Q": 2}, what="output-only rank with two shape levels whose inner step does not divide the outer step: the inner iterRangeShapeRef is clipped against the extent only, not against the enclosing partition, so elements are written twice; Z[k,q] = A[q], K: [uniform_shape(3), uniform_shape(2)], K=8"),
+    "C16-FLATCOORD": dict(props=["C16", "C06"], yaml="""
+einsum:
+  declaration:
+    Z: []
+    A: [J, N]
+  expressions:
+    - Z[] = A[j, n]
+mapping:
+  partitioning:
+    Z:
+      (J, N): [flatten()]
+  loop-order:
+    Z: [JN]
+  spacetime:
+    Z:
+      space: [JN.coord]
+      time: []
+""", extents={"J": 2, "N": 3}, what="coordinate-style spacetime stamp on a flattened rank: Canvas.__rel_coord emits the flattened rank's lower-cased name (jn), which no statement binds - the loop binds the tuple (j, n) - so the program is not closed / raises NameError; Z[] = A[j,n], (J, N): [flatten()], space: [JN.coord]"),
 }
 
 
@@ -90,7 +108,7 @@ def main():
         spec = specmod.from_yaml(w["yaml"])
         rng = random.Random(7)
         inp = classes.gen_inputs(rng, spec, w["extents"], {}, "dense")
-        args = {"spec": spec, "inputs": [inp], "counterfactuals": [["K1"], ["K2"], ["K1", "K2"]]}
+        args = {"spec": spec, "inputs": [inp], "counterfactuals": [["K1"], ["K2"], ["K1", "K2"]], "canvas": True}
         r = units.run_spec(args)
         run = r["runs"][0] if r["status"] == "ok" else None
         print(kid, r["status"], r.get("closed"), run and run["exec"], run and run.get("error"),
